@@ -105,6 +105,30 @@ Proof.
     eapply same_core_trans; [apply fold_insert_core|apply fold_del_lookup_core].
 Qed.
 
+(* the coin oracle is only consumed by the tie-break itself *)
+Lemma bc_insert_coins : forall b s, coins (bc_insert b s) = coins s.
+Proof. intros b s. unfold bc_insert. destruct (negb _); reflexivity. Qed.
+Lemma fold_emit_put_coins : forall l s, coins (fold_left (fun s kv => emit (Put (fst kv) (snd kv)) s) l s) = coins s.
+Proof. induction l as [|kv l IH]; intros s; cbn [fold_left]; [reflexivity|]. rewrite IH. reflexivity. Qed.
+Lemma fold_insert_coins : forall l s, coins (fold_left (fun s b => write_lookups_direct b (bc_insert b s)) l s) = coins s.
+Proof.
+  induction l as [|b l IH]; intros s; cbn [fold_left]; [reflexivity|].
+  rewrite IH. unfold write_lookups_direct. rewrite fold_emit_put_coins. apply bc_insert_coins.
+Qed.
+Lemma fold_del_coins : forall l s, coins (fold_left (fun s t => emit (Del (KLookup t)) s) l s) = coins s.
+Proof. induction l as [|t l IH]; intros s; cbn [fold_left]; [reflexivity|]. rewrite IH. reflexivity. Qed.
+Lemma reorg_coins : forall fuel o n s, coins (snd (reorg fuel o n s)) = coins s.
+Proof.
+  intros fuel o n s. unfold reorg.
+  destruct (s_num n <? s_num o).
+  - destruct (walk fuel (dsk s) (Some o) (s_num n) []) as [[[x|] oc]|]; cbn [snd]; try reflexivity.
+    destruct (lockstep fuel (dsk s) x n oc []); cbn [snd]; try reflexivity.
+    rewrite fold_del_coins. apply fold_insert_coins.
+  - destruct (walk fuel (dsk s) (Some n) (s_num o) []) as [[[x|] nc]|]; cbn [snd]; try reflexivity.
+    destruct (lockstep fuel (dsk s) o x [] nc); cbn [snd]; try reflexivity.
+    rewrite fold_del_coins. apply fold_insert_coins.
+Qed.
+
 (* ---------------------------------------------------------------- reorg succeeds on grounded blocks *)
 
 Section Grounded.
@@ -400,16 +424,33 @@ Proof.
   discriminate.
 Qed.
 
-Lemma wbws_inv : forall b s, Inv s -> wf_block U b -> header_of (dsk s) (h_parent (b_hdr b)) <> None ->
-  Inv (snd (write_block_with_state b s)) /\ head_td s <= head_td (snd (write_block_with_state b s)).
+Lemma hdr_td : forall d h, InvD U g d -> header_of d h <> None -> td_of d h <> None.
 Proof.
-  intros b s I [HU Hnum] Hp.
+  intros d h I Hh. destruct (N.eq_dec h (h_hash g)) as [->|Ne].
+  - rewrite (d_gen_td _ _ _ I). discriminate.
+  - destruct (d_stored _ _ _ I h Hh Ne) as (_ & _ & _ & _ & t & pt & Ht & _). rewrite Ht. discriminate.
+Qed.
+
+(* everything WriteBlockWithState guarantees for a well-formed block whose parent is stored *)
+Definition wb_post (s : st) (b : block) (r : R) : Prop :=
+  Inv (snd r) /\ head_td s <= head_td (snd r) /\
+  (forall k, header_of (dsk s) k <> None -> header_of (dsk (snd r)) k <> None) /\
+  (fst r = SOk -> header_of (dsk (snd r)) (h_hash (b_hdr b)) <> None) /\
+  (fst r = SOk \/ (fst r = SNoCoin /\ coins s = [])) /\
+  (length (coins s) <= S (length (coins (snd r))))%nat.
+
+Lemma wbws_full : forall b s, Inv s -> wf_block U b -> header_of (dsk s) (h_parent (b_hdr b)) <> None ->
+  wb_post s b (write_block_with_state b s).
+Proof.
+  intros b s I [HU Hnum] Hp. unfold wb_post.
+  pose proof (hdr_td _ _ (inv_d _ I) Hp) as Hptd.
+  pose proof (hdr_td _ _ (inv_d _ I) (cur_has_header _ I)) as Hltd.
   set (hd := b_hdr b) in *. set (txs := b_txs b) in *. set (h := h_hash hd) in *.
   assert (HU' : (hd, txs) = U (h_hash hd)) by exact HU.
   assert (Ne : h <> h_hash g).
   { intro E. unfold h in E. rewrite E, Ug in HU'. injection HU' as Ehd _. rewrite Ehd in Hnum. lia. }
   unfold write_block_with_state. fold hd. fold h. fold txs.
-  destruct (td_of (dsk s) (h_parent hd)) as [ptd|] eqn:Eptd; [|split; [exact I|cbn [snd]; lia]].
+  destruct (td_of (dsk s) (h_parent hd)) as [ptd|] eqn:Eptd; [|congruence].
   cbv zeta.
   set (ext := h_diff hd + ptd).
   set (s1 := emit (Put (KState (h_root hd)) VUnit) (emit (Put (KTd h) (VNum ext)) s)).
@@ -423,7 +464,7 @@ Proof.
   assert (Inv1 : Inv s1).
   { constructor; [exact I1|rewrite Ec1, Eblk; apply (inv_cur _ I)|].
     intros k Hk. rewrite Eh in Hk. rewrite Ehead1. unfold td_or0. rewrite (Ekeep _ Hk). apply (inv_heavy _ I _ Hk). }
-  destruct (td_of (dsk s) (s_hash (cur_block s))) as [ltd|] eqn:Eltd; [|split; [exact Inv1|cbn [snd]; lia]].
+  destruct (td_of (dsk s) (s_hash (cur_block s))) as [ltd|] eqn:Eltd; [|congruence].
   assert (Eltd' : head_td s = ltd) by (unfold head_td, td_or0; rewrite Eltd; reflexivity).
   (* facts needed by invD_add_block on any disk that is same_core with dsk s1 *)
   assert (Hadd : forall d3, same_core (dsk s1) d3 -> InvD U g (d_block d3 hd txs) /\ InvD U g d3).
@@ -441,29 +482,34 @@ Proof.
                 match coins s1 with [] => None | c :: rest => Some (c, set_coins rest s1) end
               else Some (false, s1)
             else Some (false, s1)) as dec eqn:Edec.
-  assert (Hdec : dec = None \/ exists c s1', dec = Some (c, s1') /\ dsk s1' = dsk s1 /\ cur_block s1' = cur_block s1 /\
-                 (c = true -> ltd <= ext) /\ (c = false -> ext <= ltd)).
+  assert (Hdec : (dec = None /\ coins s1 = []) \/ exists c s1', dec = Some (c, s1') /\ dsk s1' = dsk s1 /\ cur_block s1' = cur_block s1 /\
+                 (c = true -> ltd <= ext) /\ (c = false -> ext <= ltd) /\ (length (coins s1) <= S (length (coins s1')))%nat).
   { subst dec. destruct (ltd <? ext) eqn:C1.
     - right. exists true, s1. repeat split; auto; try discriminate; intros; lia.
     - destruct (ext =? ltd) eqn:C2.
       + destruct (h_number hd <? s_num (cur_block s)).
         * right. exists true, s1. repeat split; auto; try discriminate; intros; lia.
         * destruct (h_number hd =? s_num (cur_block s)).
-          -- destruct (coins s1) as [|c rest]; [left; reflexivity|].
-             right. exists c, (set_coins rest s1). repeat split; auto; intros; lia.
+          -- destruct (coins s1) as [|c rest] eqn:Ecs; [left; split; reflexivity|].
+             right. exists c, (set_coins rest s1). repeat split; auto; try (intros; lia); cbn [coins set_coins length]; lia.
           -- right. exists false, s1. repeat split; auto; try discriminate; intros; lia.
       + right. exists false, s1. repeat split; auto; try discriminate; intros; lia. }
-  clear Edec. destruct Hdec as [->|(c & s1' & -> & Ed' & Ec' & Ht & Hf)]; [split; [exact Inv1|cbn [snd]; lia]|].
+  clear Edec.
+  assert (Ehk1 : forall k, header_of (dsk s) k <> None -> header_of (dsk s1) k <> None) by (intros k Hk; rewrite Eh; exact Hk).
+  destruct Hdec as [[-> Ecn]|(c & s1' & -> & Ed' & Ec' & Ht & Hf & Hcl)].
+  { cbn [fst snd]. split; [exact Inv1|]. split; [lia|]. split; [exact Ehk1|]. split; [discriminate|].
+    split; [right; split; [reflexivity|exact Ecn]|]. change (coins s1) with (coins s). lia. }
+  change (coins s1) with (coins s) in Hcl.
   destruct c.
   - (* the block becomes the head *)
     specialize (Ht eq_refl).
     set (r := if h_parent hd =? s_hash (cur_block s) then (SOk, s1')
               else reorg (reorg_fuel s1' (h_number hd)) (cur_block s) (to_s b) s1').
-    assert (Hr : exists s3, r = (SOk, s3) /\ same_core (dsk s1) (dsk s3)).
+    assert (Hr : exists s3, r = (SOk, s3) /\ same_core (dsk s1) (dsk s3) /\ coins s3 = coins s1').
     { unfold r. destruct (h_parent hd =? s_hash (cur_block s)).
-      - exists s1'. split; [reflexivity|rewrite Ed'; apply same_core_refl].
+      - exists s1'. split; [reflexivity|split; [rewrite Ed'; apply same_core_refl|reflexivity]].
       - exists (snd (reorg (reorg_fuel s1' (h_number hd)) (cur_block s) (to_s b) s1')).
-        split; [|rewrite <- Ed'; apply reorg_core].
+        split; [|split; [rewrite <- Ed'; apply reorg_core|apply reorg_coins]].
         rewrite (surjective_pairing (reorg _ _ _ _)). f_equal.
         apply (reorg_ok g).
         + rewrite Ed'. eapply (stored_grounded U g g0 _ I1); [|reflexivity].
@@ -480,7 +526,7 @@ Proof.
           * unfold s_num, to_s; cbn [fst]. fold hd. rewrite Ephd. exact Hnum.
           * eapply (stored_grounded U g g0 _ I1); [exact Hblk|reflexivity].
         + unfold reorg_fuel. rewrite Ec', Ec1. change (s_num (to_s b)) with (h_number hd). lia. }
-    destruct Hr as (s3 & -> & H3).
+    destruct Hr as (s3 & -> & H3 & Ec3).
     destruct (Hadd _ H3) as [I4 I3].
     set (lk := map (fun kv : key * value => (fst kv, Some (snd kv))) (lookup_puts h (h_number hd) 0 txs)).
     set (s4 := emit (Batch (([(KBody h, Some (VTxs txs)); (KHashNum h, Some (VNum (h_number hd))); (KHeader h, Some (VHeader hd))]
@@ -497,7 +543,14 @@ Proof.
       by (intro k; rewrite (sc_td _ _ _ E5), Rt, (sc_td _ _ _ H3); reflexivity).
     assert (Ehd5 : head_td (bc_insert (to_s b) s4) = ext).
     { unfold head_td, td_or0. rewrite bc_insert_cur, Etd5. unfold s_hash, to_s; cbn [fst]. fold hd. fold h. rewrite Eth. reflexivity. }
-    split; [|lia].
+    assert (Ehd5k : forall k, header_of (dsk (bc_insert (to_s b) s4)) k = if N.eq_dec k (h_hash hd) then Some hd else header_of (dsk s) k)
+      by (intro k; rewrite (sc_header _ _ _ E5), Rh, (sc_header _ _ _ H3), Eh; reflexivity).
+    cbn [fst].
+    split; [|split; [lia|split; [|split; [|split; [left; reflexivity|]]]]].
+    2:{ intros k Hk. rewrite Ehd5k. destruct (N.eq_dec k (h_hash hd)); [discriminate|exact Hk]. }
+    2:{ intros _. rewrite Ehd5k. match goal with |- context [N.eq_dec ?a ?b] => destruct (N.eq_dec a b) as [|n] end; [discriminate|]. exfalso; apply n; reflexivity. }
+    2:{ rewrite bc_insert_coins. unfold s4. cbn [coins emit].
+        rewrite Ec3. exact Hcl. }
     constructor.
     + apply (invD_same_core U g _ _ E5 I4).
     + rewrite bc_insert_cur, (sc_block _ _ _ E5). exact Bh.
@@ -518,7 +571,13 @@ Proof.
     assert (Ehd2 : head_td s2 = head_td s).
     { unfold head_td, td_or0. rewrite Ec2, E2, Rt. fold (td_or0 (dsk s1) (s_hash (cur_block s))).
       rewrite <- Ec1. exact Ehead1. }
-    split; [|lia].
+    assert (Ehd2k : forall k, header_of (dsk s2) k = if N.eq_dec k (h_hash hd) then Some hd else header_of (dsk s) k)
+      by (intro k; rewrite E2, Rh, Eh; reflexivity).
+    cbn [fst].
+    split; [|split; [lia|split; [|split; [|split; [left; reflexivity|]]]]].
+    2:{ intros k Hk. rewrite Ehd2k. destruct (N.eq_dec k (h_hash hd)); [discriminate|exact Hk]. }
+    2:{ intros _. rewrite Ehd2k. match goal with |- context [N.eq_dec ?a ?b] => destruct (N.eq_dec a b) as [|n] end; [discriminate|]. exfalso; apply n; reflexivity. }
+    2:{ unfold s2. cbn [coins emit]. exact Hcl. }
     constructor.
     + rewrite E2. exact I4.
     + rewrite Ec2, E2. apply Bk. rewrite Eblk. apply (inv_cur _ I).
@@ -528,6 +587,10 @@ Proof.
       * rewrite Eh in Hk. rewrite (Etn _ Nk).
         pose proof (inv_heavy _ I _ Hk) as Hle. unfold td_or0 in Hle. lia.
 Qed.
+
+Lemma wbws_inv : forall b s, Inv s -> wf_block U b -> header_of (dsk s) (h_parent (b_hdr b)) <> None ->
+  Inv (snd (write_block_with_state b s)) /\ head_td s <= head_td (snd (write_block_with_state b s)).
+Proof. intros b s I W Hp. destruct (wbws_full b s I W Hp) as (A & B & _). split; assumption. Qed.
 
 End Step.
 
@@ -573,7 +636,8 @@ Lemma ic_loop_cons : forall prev idx b rest s,
   end.
 Proof. reflexivity. Qed.
 
-Definition good (s s' : st) : Prop := Inv U g s' /\ head_td s <= head_td s'.
+Definition good (s s' : st) : Prop :=
+  Inv U g s' /\ head_td s <= head_td s' /\ (forall k, header_of (dsk s) k <> None -> header_of (dsk s') k <> None).
 
 Lemma ic_process_good : forall prev idx b s cont,
   Inv U g s -> wf_block U b -> header_of (dsk s) (h_parent (b_hdr b)) <> None ->
@@ -581,11 +645,12 @@ Lemma ic_process_good : forall prev idx b s cont,
   good s (snd (ic_process prev idx b s cont)).
 Proof.
   intros prev idx b s cont I W Hp Hc. unfold ic_process.
-  assert (G0 : good s s) by (split; [exact I|lia]).
+  assert (G0 : good s s) by (split; [exact I|split; [lia|auto]]).
   destruct (match prev with Some p => Some (h_root (b_hdr p)) | None => option_map s_root (block_of (dsk s) (h_parent (b_hdr b))) end); [|exact G0].
   destruct (negb (has_state (dsk s) n)); [exact G0|].
   destruct (negb (b_valid b)); [exact G0|].
-  pose proof (wbws_inv U g Ug g0 b s I W Hp) as Hw.
+  pose proof (wbws_full U g Ug g0 b s I W Hp) as (Hw1 & Hw2 & Hw3 & _).
+  assert (Hw : good s (snd (write_block_with_state b s))) by (split; [exact Hw1|split; [exact Hw2|exact Hw3]]).
   destruct (write_block_with_state b s) as [e s']. cbn [snd] in Hw.
   destruct e; try exact Hw. apply Hc. exact Hw.
 Qed.
@@ -601,12 +666,12 @@ Lemma ic_loop_good : forall chain prev idx s,
   good s (snd (ic_loop prev idx chain s)).
 Proof.
   induction chain as [|b rest IH]; intros prev idx s I W.
-  - cbn [ic_loop snd]. split; [exact I|lia].
+  - cbn [ic_loop snd]. split; [exact I|split; [lia|auto]].
   - assert (Wb : wf_block U b) by (apply W; left; reflexivity).
     assert (Wr : forall b', In b' rest -> wf_block U b') by (intros; apply W; right; assumption).
-    assert (G0 : good s s) by (split; [exact I|lia]).
+    assert (G0 : good s s) by (split; [exact I|split; [lia|auto]]).
     assert (Hcont : forall s', good s s' -> good s (snd (ic_loop (Some b) (idx + 1) rest s'))).
-    { intros s' [I' L']. destruct (IH (Some b) (idx + 1) s' I' Wr) as [I'' L'']. split; [exact I''|lia]. }
+    { intros s' (I' & L' & M'). destruct (IH (Some b) (idx + 1) s' I' Wr) as (I'' & L'' & M''). split; [exact I''|split; [lia|auto]]. }
     rewrite ic_loop_cons. unfold validate_body.
     destruct (has_block_and_state (dsk s) (h_hash (b_hdr b))) eqn:Ek.
     + (* known *)
@@ -641,15 +706,15 @@ Qed.
 Lemma insert_chain_good : forall chain cs s,
   Inv U g s -> (forall b, In b chain -> wf_block U b) -> good s (snd (insert_chain chain cs s)).
 Proof.
-  intros chain cs s I W. unfold insert_chain. destruct chain as [|b r]; [split; [exact I|cbn [snd]; lia]|].
+  intros chain cs s I W. unfold insert_chain. destruct chain as [|b r]; [split; [exact I|split; [cbn [snd]; lia|auto]]|].
   assert (Is : Inv U g (set_coins cs s)) by (destruct I as [A B C]; constructor; assumption).
   assert (Hsub : forall l p x, In x (contiguous_prefix p l) -> In x l).
   { induction l as [|y l IHl]; intros p x Hx; cbn [contiguous_prefix] in Hx; [contradiction|].
     destruct ((h_number (b_hdr y) =? h_number (b_hdr p) + 1) && (h_parent (b_hdr y) =? h_hash (b_hdr p))); [|contradiction].
     destruct Hx as [<-|Hx]; [left; reflexivity|right; eapply IHl; exact Hx]. }
-  destruct (ic_loop_good (b :: contiguous_prefix b r) None 0 (set_coins cs s) Is) as [I' L'].
+  destruct (ic_loop_good (b :: contiguous_prefix b r) None 0 (set_coins cs s) Is) as (I' & L' & M').
   - intros x [<-|Hx]; [apply W; left; reflexivity|apply W; right; eapply Hsub; exact Hx].
-  - split; [exact I'|exact L'].
+  - split; [exact I'|split; [exact L'|exact M']].
 Qed.
 
 (* histories made of InsertChain calls only *)
@@ -659,18 +724,18 @@ Lemma run_good : forall ops s,
   inserts_only ops -> (forall b, In b (blocks_of ops) -> wf_block U b) -> Inv U g s -> good s (run ops s).
 Proof.
   induction ops as [|o ops IH]; intros s Hio W I.
-  - split; [exact I|cbn; lia].
+  - split; [exact I|split; [cbn; lia|auto]].
   - destruct (Hio o (or_introl eq_refl)) as (c & cs & ->).
     unfold run. cbn [fold_left]. fold (run ops (snd (step (OpInsert c cs) s))).
     assert (Estep : snd (step (OpInsert c cs) s) = snd (insert_chain c cs s)).
     { cbn [step]. destruct (insert_chain c cs s) as [[e i] s']. reflexivity. }
     rewrite Estep.
-    destruct (insert_chain_good c cs s I) as [I1 L1].
+    destruct (insert_chain_good c cs s I) as (I1 & L1 & M1).
     { intros b Hb. apply W. unfold blocks_of. cbn [flat_map blocks_of_op]. apply in_or_app. left. exact Hb. }
-    destruct (IH (snd (insert_chain c cs s))) as [I2 L2]; auto.
+    destruct (IH (snd (insert_chain c cs s))) as (I2 & L2 & M2); auto.
     + intros o' Ho'. apply Hio. right. exact Ho'.
     + intros b Hb. apply W. unfold blocks_of. cbn [flat_map]. apply in_or_app. right. exact Hb.
-    + split; [exact I2|lia].
+    + split; [exact I2|split; [lia|auto]].
 Qed.
 
 (* the database right after Genesis.Commit satisfies the invariant *)
@@ -706,7 +771,7 @@ Theorem td_additive : forall ops,
     exists t pt, td_of d h = Some t /\ td_of d (h_parent hd) = Some pt /\ t = pt + h_diff hd.
 Proof.
   intros ops Hio W d h hd Hh Ne.
-  destruct (run_good ops (pre_open g) Hio W inv_pre_open) as [I _].
+  destruct (run_good ops (pre_open g) Hio W inv_pre_open) as (I & _ & _).
   destruct (d_cons_h _ _ _ (inv_d _ _ _ I) _ _ Hh) as [-> _].
   assert (Hh' : header_of d h <> None) by (rewrite Hh; discriminate).
   destruct (d_stored _ _ _ (inv_d _ _ _ I) _ Hh' Ne) as (_ & _ & _ & _ & X). exact X.
@@ -725,8 +790,8 @@ Proof.
   { intros b Hb. apply W. unfold blocks_of in *. rewrite flat_map_app. apply in_or_app. left. exact Hb. }
   assert (W2 : forall b, In b (blocks_of ops2) -> wf_block U b).
   { intros b Hb. apply W. unfold blocks_of in *. rewrite flat_map_app. apply in_or_app. right. exact Hb. }
-  destruct (run_good ops1 (pre_open g) H1 W1 inv_pre_open) as [I1 _].
-  destruct (run_good ops2 _ H2 W2 I1) as [_ L]. exact L.
+  destruct (run_good ops1 (pre_open g) H1 W1 inv_pre_open) as (I1 & _ & _).
+  destruct (run_good ops2 _ H2 W2 I1) as (_ & L & _). exact L.
 Qed.
 
 (* the head is a stored block with its state, every stored block has its state
@@ -741,7 +806,7 @@ Theorem head_heaviest : forall ops,
   (forall h t, header_of (dsk s) h <> None -> td_of (dsk s) h = Some t -> t <= head_td s).
 Proof.
   intros ops Hio W s.
-  destruct (run_good ops (pre_open g) Hio W inv_pre_open) as [I _]. fold s in I.
+  destruct (run_good ops (pre_open g) Hio W inv_pre_open) as (I & _ & _). fold s in I.
   assert (Hst : forall h x, block_of (dsk s) h = Some x -> has_state (dsk s) (s_root x) = true /\ grounded g (dsk s) x).
   { intros h x Hx. split; [|eapply (stored_grounded U g g0 _ (inv_d _ _ _ I)); [exact Hx|reflexivity]].
     unfold block_of in Hx. destruct (header_of (dsk s) h) as [hd|] eqn:Eh; [|discriminate].
